@@ -23,6 +23,7 @@ from ..lib import core
 from ..lib.core import Failure, Disagreement
 from ..extract import validator as _ex
 from ..extract import units as _exu
+from ..extract import validator_guards as _exg
 from . import c14_units as SI
 
 PROP = "C14"
@@ -42,6 +43,8 @@ C14_complete_NoID_counterexample C14_complete_NoID_partial C14_emits_entity C14_
 C14_emits_feature_property C14_emits_tags C14_emits_array C14_traversal_order C14_shape_tag C14_shape_multi_tag
 C14_shape_array C14_shape_entities C14_shape_no_other_sites C14_shape_helpers C14_only_emitted C14_never_reported
 C14_complete_NoDataType C14_complete_feature_entries
+C14_guards_entity C14_guards_file C14_guards_property C14_guards_feature C14_guards_range C14_guards_sampled
+C14_guards_array C14_guards_tag C14_guards_multi_tag C14_guards_opaque C14_guards_cover C14_guards_locals
 """.split()]
 ASSUMPTIONS = [
     "the validator reads the file only through the public API; the model works on a description of what those reads "
@@ -75,9 +78,11 @@ READY = True
 
 
 def extract(repo):
-    """the validator catalogue and - units.py is an anchor of C14 as well - the unit tables / regex shapes the model's
-    is_atomic / is_si / scalable are instantiated with"""
+    """the validator catalogue, the conditions of the report sites compiled into PyGuard expressions, and - units.py is
+    an anchor of C14 as well - the unit tables / regex shapes the model's is_atomic / is_si / scalable are instantiated
+    with"""
     out = dict(_ex.extract(repo))
+    out.update(_exg.extract(repo))
     out.update(_exu.extract(repo))
     return out
 
